@@ -961,7 +961,8 @@ def _oracle_space(res, c, rng, margins):
             got[sup] = rowsum[l2g[sup, 0]]
             if not np.array_equal(got, exp):
                 d = np.flatnonzero(got != exp)[:6].tolist()
-                cex("dual0-truncate-support-index" if (trunc and not whole) else f"basis-sum-{tag}",
+                lost = bool(np.all(got[d] == 0) and np.all(exp[d] == 1))  # whole dual cells missing
+                cex("dual0-truncate-support-index" if (trunc and not whole and lost) else f"basis-sum-{tag}",
                     f"DUAL0 basis sums to {got[d].tolist()} on the barycentric elements {d}, expected {exp[d].tolist()} "
                     "(1 on the sub-triangles at a vertex that carries a dof)", elements=d)
             # each dual function is the indicator of the vertex patch of its vertex
